@@ -183,5 +183,11 @@ fixed("C03", "2cff64a", ["c03:ET-async:%s:close-not-detected" % k for k in ("pee
 fixed("C17", "6145046", ["c17:%s:fitting-write-not-accepted" % m for m in ("LT", "ET", "ONESHOT")],
       "Conn.Writev with an empty write queue on a socket that takes nothing returns (0, EAGAIN) to the caller instead of caching the input as Write does: a write that fits the budget is not accepted, and no writing event is requested (met first by the C11 workload connq as a refused Writev; C17 now fails any transient refusal of a fitting Write/Writev; 54 of 324 quick cases)")
 
+fixed("C13", "9c89eba", ["c13:random:valid-sequence-rejected", "c13:random:valid-sequence:pong-different", "c13:random:valid-sequence:pong-recv-different"],
+      "MessageLengthLimit is applied to every frame, control frames included: a ping/pong/close frame longer than the limit, or a control frame between the fragments of a message that is itself within the limit, fails the connection with 1009 (valid random sequences with a limit equal to the longest message; pointed out as a side remark by a seeding agent)")
+
+fixed("C13", "2dcd717", ["c13:ping:pong-payload-differs", "c13:random:valid-sequence:unexpected-other-frame"] + ["c13:%s:%s" % (c, k) for c in ("close-payload-length-1", "continuation-without-start", "control-fragmented", "control-over-125", "data-frame-inside-fragmented-message", "illegal-close-code", "invalid-utf8-close-reason", "invalid-utf8-text", "len64-top-bit", "reserved-bit", "reserved-opcode") for k in ("event-before-offending-frame-wrong", "event-after-failure-close-frame")],
+      "WriteMessage fragments control frames when MaxWebsocketFramePayloadSize is below their payload length: the pong answering a ping and the close reply are written as FIN=0 control frames followed by continuation frames (random sequences with the sender's frame size in {1,16,100,124}; side remark of a seeding agent)")
+
 json.dump(F, open("/verif/known_findings.json", "w"), indent=1)
 print("wrote %d entries (%d known)" % (len(F), sum(1 for f in F if f["status"] == "known")))
